@@ -1318,7 +1318,13 @@ class ContactHandler(Messenger, dbus.service.Object):
 
             self._modulate_tx_seg_size(delta_b, delta_t)
 
-        item = self._tx_map[transfer_id]
+        item = self._tx_map.get(transfer_id)
+        if item is None:
+            # Not one of our pending transfers
+            raise RejectError(messages.RejectMsg.Reason.UNEXPECTED)
+        if flags & messages.TransferSegment.Flag.END and item not in self._tx_pend_ack:
+            # The final segment has not been sent yet
+            raise RejectError(messages.RejectMsg.Reason.UNEXPECTED)
         item.ack_length = length
         if flags & messages.TransferSegment.Flag.END:
             if not self._do_send_ack_final:
